@@ -56,7 +56,13 @@ def run(chk, replay=None):
             if quick:
                 chains = chains[(0 if flavour == "ne" else 1)::2]
             chk.add("chain_programs", len(chains))
-            pairs = harness_pairs(chk, progs + blocks + nests + chains, flavour)
+            # structured bases (loops, nests, chains, loops in chains, ...) with one extra jump from every position to
+            # every position (quick: a fixed eighth of them per flavour, different eighths)
+            edges = gen_progs.edge_programs(cfg, start_id=300001)
+            if quick:
+                edges = edges[(0 if flavour == "ne" else 4)::8]
+            chk.add("edge_programs", len(edges))
+            pairs = harness_pairs(chk, progs + blocks + nests + chains + edges, flavour)
         chk.add("programs", len(pairs))
         chk.add("disagreements_checked", sum(1 for p in pairs if p.get("changed")))
         cov = lib.product_check(chk, "ProductDecomp", tcfg, pairs, "c07_" + flavour, timeout=900 if quick else 3000)
